@@ -11,7 +11,9 @@ shapes, real and complex data, scalar and array alpha.  numpy.linalg.eigh is an 
 decomposition the implementation obtained is recorded, checked against its specification inside
 Coq on that input, and handed to the model as data.
 Search / oracle on the implementation: variational inequality against random feasible
-competitors, objective against 200 perturbations, shape, feasible => unchanged, idempotence.
+competitors, objective against 200 perturbations, shape, feasible => unchanged, idempotence;
+every case is re-run on the same values in non-C-contiguous memory layouts (Fortran order, transposed /
+axes-permuted / strided / negative-stride views) and must give the output of the C-contiguous run.
 """
 import json
 import math
@@ -1260,6 +1262,7 @@ TRUSTED = [
 PROVED = ["see coq/props/Prop_C11.v (theorem list in obligation_list); notes/C11.md lists full vs partial"]
 VALIDATED = [
     "model == implementation on floats: by correspondence only (no verified floating-point analysis)",
+    "independence of the memory layout of the input (the model is about values): dynamic check, every case in 2-4 non-C-contiguous layouts",
     "L2Proj with explicit axes (one ball per fibre): model and oracle only; the theorem is for axes=None",
     "elementwise array alpha on separable leaves and array lamda in soft_thresh: theorem stated for per-entry thresholds; "
     "Stack with array alpha proved for per-block constants",
